@@ -116,6 +116,7 @@ type c20Worker struct {
 	addDone    bool // its registration has been delivered to the master
 	state      uint8
 	exitQueued bool
+	delDone    bool // the master's loop has been handed this worker's exit
 }
 
 type c20Ctl struct {
@@ -326,7 +327,7 @@ func (c *c20Ctl) deliver(g *c20Gate) {
 				c.await("next spawn of the batch", func(x *c20Gate) bool { return x.point == "spawn-enter" && x.gid == g.gid })
 			}
 		}
-		if w != nil && !w.alive {
+		if w != nil && !w.alive && !w.delDone {
 			// the process is already gone: its waiter reports right away
 			c.await("del-send of an already exited worker", func(x *c20Gate) bool { return x.point == "del-send" && x.arg == g.arg })
 		}
@@ -339,6 +340,9 @@ func (c *c20Ctl) deliver(g *c20Gate) {
 		}
 	case "del-send":
 		c.act(fmt.Sprintf("deliver del(w%d)", c.widx(g.arg)))
+		if w := c.byPid[g.arg]; w != nil {
+			w.delDone = true
+		}
 		close(g.release)
 		c.loopGates()
 	}
@@ -379,6 +383,25 @@ func (c *c20Ctl) kill(w *c20Worker) {
 	w.conn.Close()
 	if w.addDone {
 		c.await("del-send of the exited worker", func(x *c20Gate) bool { return x.point == "del-send" && x.arg == w.pid })
+	} else {
+		// not registered yet: the master as written reports the exit only after the
+		// registration went through.  Give an exit report that does NOT wait for it a moment
+		// to show up, so that "exit delivered before registration" becomes a choice
+		// (a gate that is late is merely found at the next await: no verdict depends on this pause)
+		c.settle(60 * time.Millisecond)
+	}
+}
+
+// settle files whatever gates arrive within d.
+func (c *c20Ctl) settle(d time.Duration) {
+	deadline := time.After(d)
+	for {
+		select {
+		case g := <-c.gates:
+			c.file(g)
+		case <-deadline:
+			return
+		}
 	}
 }
 
